@@ -41,6 +41,9 @@ class ApiBuilder:
             t = pydsdl.VariableLengthArrayType(self.build(spec[1]), spec[2])
         elif k in ("struct", "union"):
             attrs = []
+            # constants (if any) come first: legal through the constructors, and a trap for code that indexes attributes
+            for ci in range(spec[2] if len(spec) > 2 else 0):
+                attrs.append(pydsdl.Constant(pydsdl.UnsignedIntegerType(8, P.SATURATED), "K%d" % ci, pydsdl.Rational(ci + 1)))
             for name, ft in spec[1]:
                 if ft[0] == "void":
                     attrs.append(pydsdl.PaddingField(self.build(ft)))
@@ -87,12 +90,18 @@ def dsdl_type_text(spec: typing.Any, refs: typing.Dict[int, str]) -> str:
     return k
 
 
+# short names that begin like a primitive type or a keyword (legal names; a grammar that tries the primitives first chokes on them)
+TRICKY_NAMES = ["T%d", "boolean%d", "byteorder%d", "utf8x%d", "uint8ish%d", "int16lib%d", "float32s%d", "void1like%d", "truncatedx%d", "saturated_%d", "true_%d", "Bool%d"]
+
+
 class TextBuilder:
     """Emits one definition file per composite into <dir>/<root>/T<n>.1.0.dsdl (dependencies first)."""
 
-    def __init__(self, directory: str, root: str = "ns") -> None:
+    def __init__(self, directory: str, root: str = "ns", naming: int = 0, absolute: bool = False) -> None:
         self.directory = directory
         self.root = root
+        self.naming = naming  # 0: T1, T2, ...; otherwise names cycle through TRICKY_NAMES
+        self.absolute = absolute  # refer to dependencies by full name instead of relatively
         self.counter = 0
         self.refs: typing.Dict[int, str] = {}
         self.files: typing.Dict[str, str] = {}
@@ -110,10 +119,12 @@ class TextBuilder:
         for _, ft in body[1]:
             self.emit(ft)
         self.counter += 1
-        short = "T%d" % self.counter
+        short = (TRICKY_NAMES[(self.naming + self.counter) % len(TRICKY_NAMES)] if self.naming else "T%d") % self.counter
         lines = []
         if body[0] == "union":
             lines.append("@union")
+        for ci in range(body[2] if len(body) > 2 else 0):
+            lines.append("uint8 K%d = %d" % (ci, ci + 1))
         for name, ft in body[1]:
             lines.append((dsdl_type_text(ft, self.refs) + " " + name).strip())
         if k == "delim":
@@ -122,7 +133,7 @@ class TextBuilder:
             lines.append("@sealed")
         fn = "%s.1.0.dsdl" % short
         self.files[fn] = "\n".join(lines) + "\n"
-        self.refs[id(spec)] = "%s.1.0" % short
+        self.refs[id(spec)] = ("%s.%s.1.0" % (self.root, short)) if self.absolute else ("%s.1.0" % short)
         self.order.append((spec, fn))
         return self.refs[id(spec)]
 
